@@ -236,6 +236,24 @@ def sweep(tier, seed):
                     probs.append(f'{label} ({order}): value masked at {np.ma.getmaskarray(r.value).tolist()}, error masked at {np.ma.getmaskarray(r.error).tolist()}')
                 if probs:
                     fails.append({'input': {'datasets': label, 'op': f'dataset {sym} dataset', 'order': order}, 'observed': probs[:3], 'expected': 'C08 oracle, whatever the order of the operands'})
+    # the copy of a masked dataset is masked at the same cells; a left operand WITHOUT bins keeps having none, whatever the right operand holds
+    from collections import OrderedDict as _OD
+    n += 1
+    md = Dataset(np.array([1.0, -2.0, 3.0]), np.array([0.5, 1.5, 2.5]), name='m').mask(np.array([False, True, False]))
+    cp = md.copy()
+    if np.ma.getmaskarray(cp.value).tolist() != [False, True, False] or np.ma.getmaskarray(cp.error).tolist() != [False, True, False]:
+        fails.append({'input': {'op': 'ds.mask(A).copy()'}, 'observed': f'the copy is masked at {np.ma.getmaskarray(cp.value).tolist()} / {np.ma.getmaskarray(cp.error).tolist()}',
+                      'expected': 'the mask of the original: [False, True, False]'})
+    bare = Dataset(np.array([1.0, 2.0]), np.array([0.1, 0.2]), name='bare')
+    binned = Dataset(np.array([3.0, 4.0]), np.array([0.1, 0.2]), bins=_OD([('e', np.array([0.0, 1.0, 2.0]))]), name='binned')
+    for sym in '+-*/':
+        n += 1
+        try:
+            r = ops[sym](bare, binned)
+        except Exception:      # noqa
+            continue
+        if list(r.bins):
+            fails.append({'input': {'op': f'dataset without bins {sym} dataset with bins'}, 'observed': f'the result has the bins {list(r.bins)}', 'expected': 'the bins of the left operand: none'})
     # an array operand with MORE dimensions / cells than the dataset: an error, or a well-formed dataset -- never a value that no longer matches its errors and bins
     for dshape, ashape in (((5,), (2, 5)), ((5,), (1, 5)), ((2, 5), (3, 2, 5)), ((1, 1), (2, 5)), ((), (3,))):
         for sym in '+-*/':
